@@ -163,9 +163,36 @@ type inst struct {
 	committed bool // a Commit happened at some point
 	clean     bool // no change since the last Commit (or pristine)
 	check     bool
+	// shared: the map lives in realm 'A' of a database whose realm 'B' holds a sibling map with fixed, committed
+	// contents; neither may see the other
+	sibling      amap
+	siblingModel map[string]string
+	siblingStore kvstore.KVStore
 }
 
-func newInst(ops []op, set bool) *inst {
+func newInst(ops []op, set bool, shared ...bool) *inst {
+	if len(shared) > 0 && shared[0] {
+		db := mapdb.NewMapDB()
+		stA, errA := db.WithExtendedRealm([]byte{'A'})
+		stB, errB := db.WithExtendedRealm([]byte{'B'})
+		if errA != nil || errB != nil {
+			panic(fmt.Sprint(errA, errB))
+		}
+		sib := open(stB, set)
+		sm := map[string]string{keys[2]: "", keys[0]: ""}
+		if !set {
+			sm = map[string]string{keys[2]: "s", keys[0]: "t"}
+		}
+		for k, v := range sm {
+			if err := sib.Set(k, v); err != nil {
+				panic(err)
+			}
+		}
+		if err := sib.Commit(); err != nil {
+			panic(err)
+		}
+		return &inst{ops: ops, set: set, store: stA, a: open(stA, set), model: map[string]string{}, clean: true, check: true, sibling: sib, siblingModel: sm, siblingStore: stB}
+	}
 	st := mapdb.NewMapDB()
 	return &inst{ops: ops, set: set, store: st, a: open(st, set), model: map[string]string{}, clean: true, check: true}
 }
@@ -230,6 +257,23 @@ func (in *inst) Apply(i int) string {
 }
 
 func (in *inst) probe(cls string) string {
+	if in.sibling != nil {
+		// the sibling map (also through a freshly opened instance over its realm) still holds exactly its own contents
+		for _, sib := range []amap{in.sibling, open(in.siblingStore, in.set)} {
+			got := map[string]string{}
+			if err := sib.Stream(func(k, v string) error { got[k] = v; return nil }); err != nil {
+				return fmt.Sprintf("%s|sibling-stream-error: %v", cls, err)
+			}
+			if contentsKey(got) != contentsKey(in.siblingModel) || sib.Size() != len(in.siblingModel) {
+				return fmt.Sprintf("%s|sibling-disturbed: the map in the sibling realm streams %s (size %d), it was committed with %s and never touched", cls, contentsKey(got), sib.Size(), contentsKey(in.siblingModel))
+			}
+			for k, v := range in.siblingModel {
+				if gv, ex, err := sib.Get(k); err != nil || !ex || gv != v {
+					return fmt.Sprintf("%s|sibling-disturbed: Get(%s) on the map in the sibling realm gives (%q,%v,%v), committed value %q", cls, k, gv, ex, err, v)
+				}
+			}
+		}
+	}
 	a := in.a
 	if a.Size() != len(in.model) {
 		return fmt.Sprintf("%s|size: Size %d, model has %d entries %s", cls, a.Size(), len(in.model), contentsKey(in.model))
@@ -289,7 +333,10 @@ func main() {
 			if c.Thorough() {
 				d++
 			}
-			return []*hist.System{{Name: "ads-" + name, Alphabet: names, Merge: false, MaxDepth: d, New: func() hist.Instance { return newInst(ops, set) }}}
+			return []*hist.System{
+				{Name: "ads-" + name, Alphabet: names, Merge: false, MaxDepth: d, New: func() hist.Instance { return newInst(ops, set) }},
+				{Name: "ads-" + name + "/shared-db", Alphabet: names, Merge: false, MaxDepth: d - 1, New: func() hist.Instance { return newInst(ops, set, true) }},
+			}
 		})
 		p.Shards, p.ShardsQuick = len(ops), len(ops)
 		if p.Shards > 16 {
